@@ -262,19 +262,18 @@ func initializeFanControllers(pers persistence.Persistence, fanMap map[configura
 				config.ControlLoop.I, //nolint:all
 				config.ControlLoop.D, //nolint:all
 			)
-		} else if config.ControlAlgorithm != nil {
-			if config.ControlAlgorithm.Pid != nil {
-				controlLoop = control_loop.NewPidControlLoop(
-					config.ControlAlgorithm.Pid.P,
-					config.ControlAlgorithm.Pid.I,
-					config.ControlAlgorithm.Pid.D,
-				)
-			} else if config.ControlAlgorithm.Direct != nil {
-				controlLoop = control_loop.NewDirectControlLoop(
-					config.ControlAlgorithm.Direct.MaxPwmChangePerCycle,
-				)
-			}
+		} else if config.ControlAlgorithm != nil && config.ControlAlgorithm.Pid != nil {
+			controlLoop = control_loop.NewPidControlLoop(
+				config.ControlAlgorithm.Pid.P,
+				config.ControlAlgorithm.Pid.I,
+				config.ControlAlgorithm.Pid.D,
+			)
+		} else if config.ControlAlgorithm != nil && config.ControlAlgorithm.Direct != nil {
+			controlLoop = control_loop.NewDirectControlLoop(
+				config.ControlAlgorithm.Direct.MaxPwmChangePerCycle,
+			)
 		} else {
+			// no algorithm given (or an empty controlAlgorithm block): default PID
 			controlLoop = control_loop.NewPidControlLoop(
 				control_loop.DefaultPidConfig.P,
 				control_loop.DefaultPidConfig.I,
